@@ -421,7 +421,12 @@ class Ctx:
         rp = {"op": "rt_value", "sys": list(s3), "dim": list(d3), "value_hex": fval.hex(), "int": isinstance(val, int)}
         want = (d3, tuple(s3[i] if d3[i] else None for i in range(3)))
         try:
-            q = U.UnitValue(val, U.Units(U.UnitsSystem(space=s3[0], time=s3[1], quantity=s3[2]),
+            # the value reaches the quantity as a Python number or as the numpy scalar a computation would hand over
+            # (array element, sum, sqrt...): what is printed must be the same text either way
+            import numpy as _np
+            self._npalt = getattr(self, "_npalt", 0) + 1
+            vin = _np.float64(val) if (self._npalt % 3 == 0 and not isinstance(val, int)) else val
+            q = U.UnitValue(vin, U.Units(U.UnitsSystem(space=s3[0], time=s3[1], quantity=s3[2]),
                                          U.UnitsDimensions(space=d3[0], time=d3[1], quantity=d3[2])))
             t = str(q)
         except Exception as e:
